@@ -51,6 +51,8 @@ func opOf(name string) (treefs.Op, bool) {
 		return treefs.Op{Kind: "ReadDir", P: "d"}, true
 	case "copy-f-h":
 		return treefs.Op{Kind: "CopyFile", P: "d/f", Q: "d/h"}, true
+	case "gcopy-f-h":
+		return treefs.Op{Kind: "Copy", P: "d/f", Q: "d/h"}, true
 	case "write-n-a":
 		return treefs.Op{Kind: "WriteFile", P: "d/n", Data: "na"}, true
 	case "write-n-b":
@@ -194,6 +196,27 @@ func runNamed(fs filesystem.Filespace, o *obs, ti int, name string) {
 			res.Err = err.Error()
 		}
 		r.Close()
+		record(o, ti, op, call, res)
+	case "write-f-held-while-write-n":
+		// a writer kept open while the same thread writes another file of the directory
+		op := treefs.Op{Kind: "Writer", P: "d/f", Chunks: []string{"v4a", "v4b"}}
+		call := o.tick()
+		var res fsx.Result
+		w, err := fs.Writer("d/f")
+		if err != nil {
+			res.Err = err.Error()
+			record(o, ti, op, call, res)
+			return
+		}
+		w.Write([]byte("v4a"))
+		wop := treefs.Op{Kind: "WriteFile", P: "d/n", Data: "na"}
+		wcall := o.tick()
+		wres := fsx.Exec(fs, wop)
+		record(o, ti, wop, wcall, wres)
+		w.Write([]byte("v4b"))
+		if err := w.Close(); err != nil {
+			res.Err = err.Error()
+		}
 		record(o, ti, op, call, res)
 	default:
 		panic("unknown op " + name)
@@ -438,6 +461,12 @@ func programs(thorough bool) []Spec {
 			Spec{init, [][]string{{"read-f-held-while-write-n"}, {"stream-write-f"}}, b2},
 			Spec{init, [][]string{{"read-f-held-while-write-n"}, {"write-f-v1"}}, b2},
 			Spec{init, [][]string{{"read-f-held-while-write-n"}, {"stream-write-f"}, {"readdir-d"}}, b3},
+			// ... while another thread copies that file into the same directory (the copy waits for the handle)
+			Spec{init, [][]string{{"read-f-held-while-write-n"}, {"copy-f-h"}}, b2},
+			Spec{init, [][]string{{"read-f-held-while-write-n"}, {"gcopy-f-h"}}, b2},
+			Spec{init, [][]string{{"write-f-held-while-write-n"}, {"copy-f-h"}}, b2},
+			Spec{init, [][]string{{"write-f-held-while-write-n"}, {"gcopy-f-h"}}, b2},
+			Spec{init, [][]string{{"write-f-held-while-write-n"}, {"read-f"}}, b2},
 		)
 	}
 	// several nodes in one directory: operations on DISTINCT names of a shared directory
@@ -503,7 +532,7 @@ func replay(wj json.RawMessage) (*fw.Violation, error) {
 
 func init() {
 	fw.Register(&fw.Check{ID: "C09", Level: "model_checking",
-		Rule: "programs = initial tree {empty, {d/f}} x (and, with three files d/f, d/g, d/h in one directory, all pairs of 8 operations on distinct names plus 4 larger programs) x (all unordered pairs of 12 single operations on a shared directory d and file d/f: WriteFile x2, ReadFile, writer and reader streams held open across a scheduling point, MkdirAll, nested write, Remove, RemoveAll, ReadDir, CopyFile, new-node write; 8 three-thread programs; 4 two-operation programs; 3 programs holding a reader open across another operation); every schedule of the real memfs with <= bound preemptions (pairs 3/8, triples 2/4, 2x2 3/5 for quick/thorough); oracle: the call/return history plus the final tree must be linearizable w.r.t. the tree model (porcupine), structural sanity of the final tree, no panic, no deadlock, race oracle on memfs fields. states = distinct schedule traces",
+		Rule: "programs = initial tree {empty, {d/f}} x (and, with three files d/f, d/g, d/h in one directory, all pairs of 8 operations on distinct names plus 4 larger programs) x (all unordered pairs of 12 single operations on a shared directory d and file d/f: WriteFile x2, ReadFile, writer and reader streams held open across a scheduling point, MkdirAll, nested write, Remove, RemoveAll, ReadDir, CopyFile, new-node write; 8 three-thread programs; 4 two-operation programs; 8 programs holding a reader or a writer open across another operation of the same thread, against stream writes, plain writes, reads and copies of that file into the same directory); every schedule of the real memfs with <= bound preemptions (pairs 3/8, triples 2/4, 2x2 3/5 for quick/thorough); oracle: the call/return history plus the final tree must be linearizable w.r.t. the tree model (porcupine), structural sanity of the final tree, no panic, no deadlock, race oracle on memfs fields. states = distinct schedule traces",
 		Run: run, Replay: replay,
 		Assumptions: []string{"linearizability against the tree model is used as the meaning of 'takes effect and is visible afterwards'; a stream counts as one operation from open to close", "2-3 threads; bounds as reported; word-sized fields outside the race oracle"}})
 }
